@@ -129,7 +129,7 @@ func genOID(t *rapid.T, label string) string {
 		case 1:
 			v = int64(rapid.IntRange(128, 16384).Draw(t, label+"-v"))
 		case 2:
-			v = rapid.Int64Range(16384, 1<<40).Draw(t, label+"-v")
+			v = rapid.Int64Range(16384, 1<<31-1).Draw(t, label+"-v")
 		default:
 			v = int64(rapid.SampledFrom([]int{0, 127, 128, 16383, 16384, 2097151, 2097152, 1<<31 - 1}).Draw(t, label+"-v"))
 		}
